@@ -29,6 +29,7 @@ def configs(tier):
         for sched in (False, True):
             out.append({"part": "fit", "nets": nets, "bases": len(nets) == 2, "scheduler": sched, "data": "tensor"})
     out.append({"generic": "every shape"})
+    out.append({"part": "second-fit", "nets": ["rbm_am"], "bases": False, "scheduler": True, "data": "tensor"})
     return out
 
 
@@ -37,10 +38,38 @@ def canaries(tier):
             ({"part": "vector_to_grads", "kind": "mixed", "arch": [2, 3, 2]}, "spec-wrong-offsets")]
 
 
+def _second_fit(ctx, cfg):
+    """History: fit, then fit again on the SAME state object with the SAME optimizer class, another learning rate and an
+    arbitrary starting_epoch (continuing a run): every step of the second call is taken by an optimizer built by that
+    call from its own learning rate and arguments, and all per-batch obligations hold again."""
+    from qucumber.nn_states.neural_state import NeuralStateBase
+    from contracts import fitworld as FW
+    from qv.astvc import VC
+    vc = VC(ctx)
+    ctx.under_contract("NeuralStateBase.fit")
+
+    def run():
+        w1 = FW.FitWorld(vc, "none", cfg["nets"], cfg["bases"], cfg["scheduler"], cfg["data"])
+        vc.assume(w1.epochs < w1.starting_epoch)           # first run: set-up only (the optimizer is built), no epoch
+        f1, _r = FW.make_sandbox(vc, w1, NeuralStateBase.fit, NeuralStateBase)
+        w1.user_may_stop = lambda event: None
+        _ret, me, _d = FW.run_fit(vc, w1, f1)
+        w2 = FW.FitWorld(vc, "C06", cfg["nets"], cfg["bases"], cfg["scheduler"], cfg["data"])
+        w2.user_may_stop = lambda event: None
+        f2, _r = FW.make_sandbox(vc, w2, NeuralStateBase.fit, NeuralStateBase)
+        FW.run_fit(vc, w2, f2, me=me)
+        w2.check("C06", "second fit/an optimizer was built by this call", w2.optimizer_obj is not None and w2.optimizer_obj is not w1.optimizer_obj)
+    vc.explore(run, "second fit")
+    vc.flush()
+    ctx.holds("exploration/paths > 0", vc.paths > 0)
+
+
 def run_config(ctx, cfg):
     if cfg.get("generic"):
         from contracts import gsets
         return gsets.run(ctx, "C06")
+    if cfg.get("part") == "second-fit":
+        return _second_fit(ctx, cfg)
     if cfg["part"] == "fit":
         from lemmas import C12
         return C12.fit_part(ctx, cfg, prop="C06")
